@@ -67,6 +67,14 @@ def record_fields(repo, mod, name, allow_methods=False):
     cq = repo.chase(mod, name)
     cn = repo.classes.get(cq) if cq else None
     if cn is None:
+        # functional form:  K = collections.namedtuple("K", ["a", "b"])  /  namedtuple("K", "a b")
+        v = repo.const_value(mod, name)
+        if isinstance(v, ast.Call) and U(v.func) in ("collections.namedtuple", "namedtuple") and len(v.args) == 2 and not v.keywords:
+            fl = v.args[1]
+            if isinstance(fl, (ast.List, ast.Tuple)) and fl.elts and all(isinstance(x, ast.Constant) and isinstance(x.value, str) for x in fl.elts):
+                return [x.value for x in fl.elts]
+            if isinstance(fl, ast.Constant) and isinstance(fl.value, str) and fl.value.replace(",", " ").split():
+                return fl.value.replace(",", " ").split()
         return None
     bases = [U(b) for b in cn.bases]
     decos = [U(d).split("(")[0] for d in cn.decorator_list]
